@@ -25,6 +25,20 @@ pub const COMMON_NAMES: [&str; 10] = [
 /// this many distinct (start,size) pairs (keeps the cache's bookkeeping a fixed few KiB).
 pub const MAX_DISTINCT_RANGES: usize = 112;
 
+/// How many distinct byte ranges a history may ask one stream of `len` bytes for, so that
+/// the bookkeeping of a cache with up to 48 bytes per entry (hash map with power-of-two
+/// buckets at 7/8 load) stays under C08's bound `4*len + 16384`; 16 entries are kept in
+/// reserve for the ranges the multi-range accessors add themselves.
+pub fn max_distinct(len: u64) -> usize {
+    let budget = (4 * len + 16_384) / 49;
+    let mut buckets: u64 = 1;
+    while buckets * 2 <= budget {
+        buckets *= 2;
+    }
+    let entries = (buckets * 7 / 8) as usize;
+    entries.saturating_sub(16).clamp(MAX_DISTINCT_RANGES - 16, 1100)
+}
+
 pub fn draw_spec(rng: &mut Rng, bytes: &[u8]) -> Spec {
     // mostly AnyEndian or the matching fixed spec; sometimes the mismatching one
     let be = bytes.get(5).copied() == Some(2);
@@ -188,16 +202,19 @@ fn range_of(op: &Op) -> Option<(u64, u64)> {
 /// or starts over at some fill level only shows under such a history.
 fn pressure_ops(rng: &mut Rng, bytes: &[u8], m: &Model) -> Vec<OpRec> {
     let len = bytes.len() as u64;
+    let cap = max_distinct(len);
     let thresholds = [
         3usize, 4, 5, 7, 8, 9, 15, 16, 17, 31, 32, 33, 47, 48, 49, 62, 63, 64, 65, 66, 95, 96,
-        97,
+        97, 99, 100, 101, 111, 112, 113, 126, 127, 128, 129, 130, 191, 192, 193, 254, 255, 256,
+        257, 258, 511, 512, 513, 1000, 1023, 1024, 1025,
     ];
-    // k <= 97: with the <= 14 ranges of the multi-range accessors the stream still sees
-    // fewer than MAX_DISTINCT_RANGES distinct ranges (C08's fixed-overhead budget)
-    let k = if rng.chance(2, 3) {
-        *rng.pick(&thresholds)
+    // k is capped by the stream length (C08's fixed-overhead budget, see max_distinct)
+    let usable: Vec<usize> = thresholds.iter().copied().filter(|t| *t <= cap).collect();
+    let k = if rng.chance(2, 3) && !usable.is_empty() {
+        // the larger thresholds are as likely as the small ones
+        *rng.pick(&usable)
     } else {
-        rng.urange(1, 97)
+        rng.urange(1, cap)
     };
     let mut ops: Vec<Op> = Vec::with_capacity(k + 16);
     let multis = [
@@ -213,7 +230,7 @@ fn pressure_ops(rng: &mut Rng, bytes: &[u8], m: &Model) -> Vec<OpRec> {
     }
     let mut seen: HashSet<(u64, u64)> = HashSet::new();
     let mut i: u64 = 0;
-    while seen.len() < k && i < 4 * k as u64 + 8 {
+    while seen.len() < k && i < 6 * k as u64 + 8 {
         i += 1;
         // real section ranges first, then synthetic in-file ranges
         let (off, size) = if (i as usize) <= m.shdrs.len() && rng.chance(1, 2) {
@@ -221,7 +238,7 @@ fn pressure_ops(rng: &mut Rng, bytes: &[u8], m: &Model) -> Vec<OpRec> {
             (s.offset, s.size)
         } else if len > 0 {
             let off = rng.below(len);
-            (off, 1 + rng.below((len - off).min(24)))
+            (off, 1 + rng.below((len - off).min(if k > 200 { 200 } else { 24 })))
         } else {
             (0, 0)
         };
@@ -307,7 +324,7 @@ pub fn gen_ops(
             ops.push(o);
             continue;
         }
-        let allow_new = ranges.len() < MAX_DISTINCT_RANGES;
+        let allow_new = ranges.len() < max_distinct(len);
         // an arithmetic twin of a range that was already asked for (1 in 12)
         if allow_new && rng.chance(1, 12) {
             let prior: Vec<&Op> = ops.iter().filter(|o| range_of(o).is_some()).collect();
@@ -352,7 +369,14 @@ pub fn gen_ops(
             0..=5 => rng.pick(&globals).clone(),
             6..=7 => {
                 // name lookup: present, absent, prefix/suffix of present, empty
-                let n = if rng.chance(1, 5) {
+                let n = if rng.chance(1, 16) {
+                    let mut long = String::from(".long_");
+                    let want = *rng.pick(&[33usize, 65, 130, 257, 1025]);
+                    while long.len() < want {
+                        long.push('x');
+                    }
+                    long
+                } else if rng.chance(1, 5) {
                     (*rng.pick(&COMMON_NAMES)).to_string()
                 } else if names.is_empty() || rng.chance(1, 4) {
                     (*rng.pick(&["", ".absent", ".text", ".symtab", ".shstrtab"])).to_string()
@@ -464,6 +488,14 @@ pub fn full_query_set(bytes: &[u8], m: &Model, slice_extras: bool) -> Vec<OpRec>
     }
     ops.push(Op::ByName(".absent".into()));
     ops.push(Op::ByName(String::new()));
+    // absent names longer than any plausible small-buffer optimisation
+    for n in [33usize, 65, 130, 257, 1025] {
+        let mut long = String::from(".long_");
+        while long.len() < n {
+            long.push('x');
+        }
+        ops.push(Op::ByName(long));
+    }
     // names real programs ask for, whether or not this file has them
     for n in COMMON_NAMES.iter() {
         if seen.insert((*n).to_string()) {
